@@ -77,9 +77,11 @@ def cells(tier, seed):
     T = tier != "quick"
     out = []
 
-    def d1(dim, psf, size, bc, phantom="sinc", noise="gaussian", std=0.01, prior="default"):
-        out.append({"fam": "d1", "dim": dim, "PSF": psf, "size": size, "BC": bc, "phantom": phantom, "noise": noise,
-                    "std": std, "prior": prior, "cat": k})
+    def d1(dim, psf, size, bc, phantom="sinc", noise="gaussian", std=0.01, prior="default", **extra):
+        c = {"fam": "d1", "dim": dim, "PSF": psf, "size": size, "BC": bc, "phantom": phantom, "noise": noise,
+             "std": std, "prior": prior, "cat": k}
+        c.update(extra)
+        out.append(c)
     if not T:
         for dim in (7, 8):
             for psf in tp.PSF_NAMES:
@@ -114,6 +116,40 @@ def cells(tier, seed):
                         for bc in tp.BC_1D:
                             for psf in ("gauss", "custom"):
                                 d1(dim, psf, 4, bc, noise=noise, std=std, prior=pr)
+    # --- Deconvolution1D option classes (light cells, see RULE): PSF_size default / above dim in both parities,
+    #     PSF_param small / large / default, documented spellings, default phantom_param
+    i = 0
+    for dim in ((7, 8) if not T else (7, 8, 16)):
+        above = (dim + 1, dim + 2, 2 * dim + 1, 3 * dim) if not T else (dim + 1, dim + 2, dim + 3, 2 * dim, 2 * dim + 1,
+                                                                         3 * dim, 3 * dim + 1)
+        for psf in tp.PSF_NAMES:
+            for size in (None,) + above:
+                if psf == "custom" and size is None:
+                    continue                      # an array PSF has no default size
+                for bc in tp.BC_1D:
+                    for pmul in ((1,) if psf == "custom" else (1, 4)):
+                        for noise in (NOISE if T else (NOISE[i % 2],)):
+                            i += 1
+                            d1(dim, psf, size, bc, noise=noise, std=0.05, pmul=pmul, light=True)
+        for psf in ("gauss", "moffat", "defocus"):
+            for size in ((3, 4, dim) if not T else (3, 4, 5, dim)):
+                for bc in tp.BC_1D:
+                    i += 1
+                    d1(dim, psf, size, bc, noise=NOISE[i % 2], std=0.05, pmul=4, light=True)
+            for size in (3, 4, None, dim + 1):
+                for bc in tp.BC_1D:
+                    i += 1
+                    d1(dim, psf, size, bc, noise=NOISE[i % 2], std=0.05, defpar=True, light=True)
+    i = 0
+    for psf in tp.PSF_NAMES:
+        for bc in tp.BC_1D:
+            for noise in NOISE:
+                i += 1
+                # (scaled noise needs exact data without zeros: smooth positive phantoms only)
+                ph = PHANTOMS[i % 9] if noise == "gaussian" else ("gauss", "sinc", "vonmises", "bumps")[i % 4]
+                d1(8, psf, (3, 4)[i % 2], bc, phantom=ph, noise=noise, std=0.05, spell="doc")
+    for ph in PHANTOMS[:-1]:
+        d1(8, "gauss", 3, "periodic", phantom=ph, noise="gaussian", std=0.05, phdef=True, light=True)
     for dim in ((8,) if not T else (8, 16)):
         for psf in ("gauss", "sinc", "vonmises", "custom"):
             for noise in NOISE:
@@ -131,6 +167,39 @@ def cells(tier, seed):
         for noise in NOISE:
             out.append({"fam": "d2", "dim": 5, "PSF": "custom", "size": 3, "BC": "neumann", "noise": noise, "std": 0.05,
                         "prior": pr, "phantom": "array", "cat": k})
+
+    # --- Deconvolution2D option classes (light): PSF_size == dim / above dim / default (21), PSF_param large /
+    #     default (2.56), documented spellings, phantom default / named / array of another size (resized)
+    def d2(dim, psf, size, bc, noise, **extra):
+        c = {"fam": "d2", "dim": dim, "PSF": psf, "size": size, "BC": bc, "noise": noise, "std": 0.05,
+             "prior": "default", "phantom": "array", "cat": k}
+        c.update(extra)
+        out.append(c)
+    i = 0
+    for dim in ((5,) if not T else (5, 6)):
+        for psf in tp.PSF_NAMES:
+            for size in (dim, dim + 1, dim + 2, "default"):
+                if psf == "custom" and size == "default":
+                    continue
+                for bc in tp.BC_2D:
+                    i += 1
+                    d2(dim, psf, size, bc, NOISE[i % 2], defpar=(size == "default"), light=True)
+        for psf in ("gauss", "moffat", "defocus"):
+            for size in (3, 4):
+                for bc in tp.BC_2D:
+                    i += 1
+                    d2(dim, psf, size, bc, NOISE[i % 2], pmul=4, light=True)
+                    if bc in ("zero", "neumann"):
+                        d2(dim, psf, size, bc, NOISE[(i + 1) % 2], defpar=True, light=True)
+    i = 0
+    for psf in ("gauss", "moffat", "defocus"):
+        for bc in tp.BC_2D:
+            i += 1
+            d2(5, psf, (3, 4)[i % 2], bc, NOISE[i % 2], spell="doc")
+    for ph in ("default", "camera", "resized"):
+        for noise in NOISE:
+            d2(5, "custom", 3, "mirror", noise, phantom=ph, light=True)
+
     for dim in ((5, 8) if not T else (5, 8, 12)):
         for field in ("none", "KL", "KL-3", "Step"):
             for mp in ("none", "exp"):
@@ -141,11 +210,60 @@ def cells(tier, seed):
             for obs in ("none", "sub"):
                 for snr in (200, 50):
                     out.append({"fam": "poisson", "dim": dim, "field": field, "obs": obs, "SNR": snr, "cat": k})
+
+    # --- PDE option classes (light): endpoint (float above / below 1, int), max_time, source, every field type with
+    #     default and non-default field_params, map with and without imap, observation map by index / by location,
+    #     user-supplied exactSolution
+    def pde(fam, dim, field, obs="none", snr=200, **extra):
+        c = {"fam": fam, "dim": dim, "field": field, "obs": obs, "SNR": snr, "cat": k, "light": True}
+        if fam == "heat":
+            c["map"] = extra.pop("map", "none")
+        c.update(extra)
+        out.append(c)
+    i = 0
+    for dim in ((5, 8) if not T else (5, 8, 12)):
+        # (max_time chosen so that there are >= 4 time nodes: the sub-grid observation interpolates in time as well)
+        for L, Tm in ((2.0, 0.25), (2.0, 0.5), (0.5, 0.05), (0.5, 0.1), (1.0, 0.25), (2, 0.25)):
+            for field in ("none", "KL", "Step"):
+                for obs in ("none", "sub", "mask"):
+                    i += 1
+                    pde("heat", dim, field, obs, (200, 50)[i % 2], L=L, T=Tm)
+        for field in ("KL-3", "Step-default", "KLFull", "KLFull-p", "CustomKL-p", "geom:Step3", "geom:C1D"):
+            for mp in ("none", "exp", "sq"):
+                for L in (1.0, 2.0):
+                    i += 1
+                    pde("heat", dim, field, "none", (200, 50)[i % 2], L=L, map=mp)
+        for field in ("none", "KL", "Step"):
+            for mp in ("none", "exp"):
+                i += 1
+                pde("heat", dim, field, ("none", "sub")[i % 2], 200, map=mp, xs=True)
+        for L in (2.0, 0.5, 2):
+            for src in ("custom", "default", "linear"):
+                for obs in ("none", "sub", "mask"):
+                    for field in ("none", "Step"):
+                        i += 1
+                        pde("poisson", dim, field, obs, (200, 50)[i % 2], L=L, src=src)
+        for field in ("KL-3+exp", "Step-default", "KLFull+exp", "KLFull-p+exp", "CustomKL-p+exp", "geom:Step3", "geom:C1D",
+                      "KL+sq", "KL"):
+            for L in (1.0, 2.0):
+                i += 1
+                pde("poisson", dim, field, "none", (200, 50)[i % 2], L=L, src=("custom", "default", "linear")[i % 3])
+        for field in ("none", "KL+exp"):
+            pde("poisson", dim, field, "sub", 200, xs=True)
     for dim in ((4, 7) if not T else (4, 7, 12)):
         for field in ("none", "KL", "Step", "KL+exp"):
             for snr in (100, 20):
                 out.append({"fam": "abel", "dim": dim, "field": field, "SNR": snr, "cat": k})
-    for std in (1, 0.5):
+        # Abel1D option classes: endpoint x every field type (full noise identification: the problem is cheap)
+        i = 0
+        for L in (2.0, 0.5, 2, 1.0):
+            for field in ("none", "KL", "KL-3", "Step", "Step-default", "CustomKL-p", "geom:Step3", "geom:C1D", "KL+exp",
+                          "KL-3+sq", "Step+exp"):
+                if L == 1.0 and field in ("none", "KL", "Step", "KL+exp"):
+                    continue
+                i += 1
+                out.append({"fam": "abel", "dim": dim, "field": field, "SNR": (100, 20)[i % 2], "L": L, "cat": k})
+    for std in (1, 0.5, 2.0):
         for data in (None, 2.5, 0, 0.0, -1.5):      # incl. the falsy observations 0 / 0.0
             for pr in ("default", "gaussian"):
                 out.append({"fam": "wang", "std": std, "data": data, "prior": pr, "cat": k})
@@ -164,7 +282,24 @@ def _parity(s):
 
 
 def _param(cell):
-    return [1.25, 2.0, 1.5][cell["cat"]]
+    return [1.25, 2.0, 1.5][cell["cat"]] * cell.get("pmul", 1)
+
+
+# the spellings used in the docstrings (the library is documented with these; option values are case-insensitive)
+DOC_SPELL = {"gauss": "Gauss", "moffat": "Moffat", "defocus": "Defocus", "mirror": "Mirror", "reflect": "Reflect",
+             "nearest": "Nearest", "neumann": "Neumann", "gaussian": "Gaussian", "scaledgaussian": "scaledGaussian",
+             "vonmises": "vonMises", "derivgauss": "derivGauss"}
+
+
+def _sp(cell, word):
+    return DOC_SPELL.get(word, word) if cell.get("spell") == "doc" else word
+
+
+def _sizetag(size, dim):
+    """Class of a PSF_size w.r.t. the signal size: parity, and whether it exceeds dim / is the default."""
+    if size is None or size == "default":
+        return "default"
+    return _parity(size) + (">dim" if size > dim else "")
 
 
 def _make_prior(kind, dim, k, geometry=None):
@@ -212,9 +347,11 @@ def _select(grid_sol, grid_obs):
 # ----------------------------------------------------------------------------------------
 # (c) noise, decided exactly; (b) exact data; (d) components and posterior
 # ----------------------------------------------------------------------------------------
-def check_noise(res, comp, facet, build, cov_readings, what):
+def check_noise(res, comp, facet, build, cov_readings, what, light=False):
     """cov_readings(exactData) -> list of admissible covariance *vectors* (diagonals).  Returns (problem built with a
-    generic z, variance vector actually realised or None)."""
+    generic z, variance vector actually realised or None).
+    light=True (cells whose new facet is not a noise option): the noise map is probed with 0 and ONE generic normal
+    vector z only; data - exactData must equal +-sqrt(stated variance) * z elementwise."""
     p0, s0 = _scripted(build, None)
     reqs = [r for r in s0.log if r["kind"] == "normal"]
     res.transitions += 1
@@ -234,6 +371,24 @@ def check_noise(res, comp, facet, build, cov_readings, what):
         res.fail("C17|%s|noise-mean|%s" % (comp, what), "with the normal draw answered by 0 the data differ from exactData by "
                  "up to %r (noise must have mean zero)" % float(np.max(np.abs(d0 - y0))), facet=facet)
         return p0, None
+    if light:
+        z = refs.dyadic_vec(m, res.cell["cat"] + 1)
+        pz, sz = _scripted(build, z)
+        res.transitions += 1
+        res.evaluations += 1
+        nz = _arr(pz.data).ravel() - _arr(pz.exactData).ravel()
+        readings = cov_readings(y0)
+        scale = max(float(np.max(np.abs(nz))), float(np.sqrt(np.max(np.abs(readings[0])))) * float(np.max(np.abs(z))), 1e-300)
+        hit = [i for i, v in enumerate(readings)
+               if any(close(nz / scale, sg * np.sqrt(np.asarray(v, float)) * z / scale, 1e-9) for sg in (1.0, -1.0))]
+        if not hit:
+            res.fail("C17|%s|noise-covariance|%s" % (comp, what),
+                     "data - exactData for the scripted normal draw z is %r..., stated noise std * z = %r..." %
+                     (nz[:4].tolist(), (np.sqrt(np.asarray(readings[0], float)) * z)[:4].tolist()), facet=facet)
+            return pz, None
+        res.outcomes.add("noise-level-reading:%d/%d" % (hit[0], len(readings)))
+        res.outcomes.add("noise:%s:ok(light)" % what)
+        return pz, np.asarray(readings[hit[0]], float).copy()
     T = np.zeros((m, m))
     for i in range(m):
         e = np.zeros(m)
@@ -394,11 +549,12 @@ def _phantom_args(cell):
     ph = cell.get("phantom", "sinc")
     if ph == "array":
         return {"phantom": refs.dyadic_vec(cell["dim"], cell["cat"] + 1)}
+    name = _sp(cell, ph)
+    if cell.get("phdef") or ph in ("bumps", "pc", "skyscraper"):
+        return {"phantom": name}                # phantom_param left at its default
     if ph in ("square", "hat"):
-        return {"phantom": ph, "phantom_param": 3}
-    if ph in ("bumps", "pc", "skyscraper"):
-        return {"phantom": ph}
-    return {"phantom": ph, "phantom_param": [2.0, 3.0, 1.5][cell["cat"]]}
+        return {"phantom": name, "phantom_param": 3}
+    return {"phantom": name, "phantom_param": [2.0, 3.0, 1.5][cell["cat"]]}
 
 
 def eval_d1(res, cell):
@@ -421,32 +577,67 @@ def eval_d1(res, cell):
         R = tp.circulant(h)
         Roff = None
     else:
-        size, bc = cell["size"], cell["BC"]
-        par = _param(cell)
-        Pc = tp.custom_psf_1d(size, k)
-        P = Pc if cell["PSF"] == "custom" else cell["PSF"]
-        facet = "BC=%s,PSF=%s,PSF_size=%s" % (bc, cell["PSF"], _parity(size))
+        size, bc = cell["size"], cell["BC"]          # size None: PSF_size left at its default (documented: dim)
+        esize = dim if size is None else size
+        defpar = bool(cell.get("defpar"))            # PSF_param left at its default ("depends on PSF")
+        par = None if defpar else _param(cell)
+        Pc = tp.custom_psf_1d(esize, k)
+        P = Pc if cell["PSF"] == "custom" else _sp(cell, cell["PSF"])
+        stag = _sizetag(size, dim)
+        facet = "BC=%s,PSF=%s,PSF_size=%s" % (bc, cell["PSF"], stag)
+        okw = {}
+        if size is not None:
+            okw["PSF_size"] = size
+        if par is not None:
+            okw["PSF_param"] = par
 
-        def build():
-            return cuqi.testproblem.Deconvolution1D(dim=dim, PSF=P, PSF_param=par, PSF_size=size, BC=bc,
-                                                    noise_type=cell["noise"], noise_std=cell["std"],
+        def build(BC=None):
+            return cuqi.testproblem.Deconvolution1D(dim=dim, PSF=P, BC=_sp(cell, bc) if BC is None else BC,
+                                                    noise_type=_sp(cell, cell["noise"]), noise_std=cell["std"],
                                                     prior=_make_prior(cell.get("prior", "default"), dim, k),
-                                                    **_phantom_args(cell))
-        Pref = Pc if cell["PSF"] == "custom" else tp.psf_1d(cell["PSF"], size, par)
-        R = tp.conv1d_matrix(Pref, dim, bc)
-        Roff = tp.conv1d_matrix(tp.defocus_1d_offcentre(size, par), dim, bc) if cell["PSF"] == "defocus" else None
+                                                    **okw, **_phantom_args(cell))
     try:
         prob, _ = _scripted(build, None)
     except HarnessError:
         raise
     except Exception as e:
-        res.refused += 1
-        res.nontrivial = False
-        res.transitions += 1
-        res.state("construct-refused")
-        res.outcomes.add("construct-refused:" + type(e).__name__)
+        _refused(res, e)
+        _spelling_refusal(res, comp, cell, eval_d1, e)
         return
     res.state("built")
+    if not legacy:
+        Roff = None
+        if cell["PSF"] == "custom":
+            Pref = Pc
+        elif defpar:
+            # default PSF_param: undocumented value -> the taps (read off the zero-boundary operator of a sibling
+            # problem) must be a member of the documented PSF family for some parameter; the operator of THIS cell
+            # is then compared with the convolution by that member under the cell's boundary rule
+            try:
+                p0, _ = _scripted(lambda: build(BC="zero"), None)
+                F0 = _columns(p0.model.forward, dim)
+                res.transitions += dim + 1
+            except HarnessError:
+                raise
+            except Exception as e:
+                res.fail("C17|%s|forward|raises,PSF_param=default" % comp, "zero-boundary sibling problem raised %r" % (e,))
+                return
+            c = esize // 2
+            taps = np.array([F0[kk - c, 0] if 0 <= kk - c < dim else F0[0, c - kk] for kk in range(esize)])
+            fam = tp.identify_psf_1d(cell["PSF"], taps)
+            res.evaluations += 1
+            if not fam:
+                res.fail("C17|%s|PSF|PSF_param=default,PSF=%s" % (comp, cell["PSF"]), "with the default PSF_param the "
+                         "point-spread function %r... is not a %d-point member of the documented %s family for any "
+                         "parameter" % (taps[:5].tolist(), esize, cell["PSF"]), facet=facet, taps=taps)
+                return
+            Pref = fam[0]
+            res.outcomes.add("default-param:identified")
+        else:
+            Pref = tp.psf_1d(cell["PSF"], esize, par)
+            if cell["PSF"] == "defocus":
+                Roff = tp.conv1d_matrix(tp.defocus_1d_offcentre(esize, par), dim, bc)
+        R = tp.conv1d_matrix(Pref, dim, bc)
     # (a) forward on the complete basis
     F = _columns(prob.model.forward, dim)
     res.transitions += dim
@@ -468,7 +659,8 @@ def eval_d1(res, cell):
             res.fail("C17|%s|forward|matrix-transposed" % comp, msg + " (transposed operator)", facet=facet)
         else:
             res.fail("C17|%s|forward|%s" % (comp, lead + ("PSF=%s" % cell["PSF"] if legacy else
-                                                        "BC=%s,PSF_size=%s" % (cell["BC"], _parity(cell["size"])))),
+                                                        "BC=%s,PSF_size=%s%s" % (cell["BC"], stag,
+                                                                                 ",PSF_param=default" if defpar else ""))),
                      msg, facet=facet, F=F, R=R)
     else:
         res.outcomes.add("forward:ok")
@@ -483,7 +675,8 @@ def eval_d1(res, cell):
         readings = lambda y: [np.full(y.size, std ** 2)]
     else:
         readings = lambda y: [(std * y) ** 2]
-    pz, var = check_noise(res, comp, facet, build, readings, lead + "noise=" + cell["noise"])
+    light = bool(cell.get("light"))
+    pz, var = check_noise(res, comp, facet, build, readings, lead + "noise=" + cell["noise"], light=light)
     res.state("noise")
     _info_std(res, comp, pz, cell["noise"], std)
     # (d)
@@ -491,7 +684,7 @@ def eval_d1(res, cell):
     res.state("components")
     # (e) non-initial state: after a point estimate / direct sampling on the SAME problem object the data and the
     #     posterior it hands out are still the ones checked above
-    if dim <= 8 and pz is not None:
+    if dim <= 8 and pz is not None and not light:
         try:
             d0 = np.array(_arr(pz.data), copy=True)
             xq = _points(dim, k)[-1]
@@ -520,28 +713,40 @@ def eval_d2(res, cell):
     import cuqi
     dim, k, size, bc = cell["dim"], cell["cat"], cell["size"], cell["BC"]
     comp = "Deconvolution2D"
-    par = _param(cell)
+    # size "default" / defpar: PSF_size / PSF_param left at the defaults of the signature (21 / 2.56)
+    defpar = bool(cell.get("defpar"))
+    par = 2.56 if defpar else _param(cell)
+    okw = {} if defpar else {"PSF_param": par}
+    if size == "default":
+        size = 21
+    else:
+        okw["PSF_size"] = size
     Pc = tp.custom_psf_2d(size, k)
-    P = Pc if cell["PSF"] == "custom" else cell["PSF"]
-    facet = "BC=%s,PSF_size=%s" % (bc, _parity(size))
-    ph = refs.dyadic_vec(dim * dim, k + 1)
-    ph = ph.reshape(dim, dim) if cell["phantom"] == "array" else ph
+    P = Pc if cell["PSF"] == "custom" else _sp(cell, cell["PSF"])
+    facet = "BC=%s,PSF_size=%s" % (bc, _sizetag(cell["size"], dim))
+    phk = cell["phantom"]
+    given = phk in ("array", "vector")
+    if phk == "array":
+        okw["phantom"] = refs.dyadic_vec(dim * dim, k + 1).reshape(dim, dim)
+    elif phk == "vector":
+        okw["phantom"] = refs.dyadic_vec(dim * dim, k + 1)
+    elif phk == "resized":                       # "The image will automatically be resized to fit the problem size"
+        okw["phantom"] = refs.dyadic_vec((dim + 3) ** 2, k + 1).reshape(dim + 3, dim + 3)
+    elif phk != "default":                       # a named phantom of cuqi.data ("default": the signature's 'satellite')
+        okw["phantom"] = phk
     geom = cuqi.geometry.Image2D((dim, dim))
 
     def build():
-        return cuqi.testproblem.Deconvolution2D(dim=dim, PSF=P, PSF_param=par, PSF_size=size, BC=bc, phantom=ph,
-                                                noise_type=cell["noise"], noise_std=cell["std"],
-                                                prior=_make_prior(cell["prior"], dim * dim, k, geometry=geom))
+        return cuqi.testproblem.Deconvolution2D(dim=dim, PSF=P, BC=_sp(cell, bc),
+                                                noise_type=_sp(cell, cell["noise"]), noise_std=cell["std"],
+                                                prior=_make_prior(cell["prior"], dim * dim, k, geometry=geom), **okw)
     try:
         prob, _ = _scripted(build, None)
     except HarnessError:
         raise
     except Exception as e:
-        res.refused += 1
-        res.nontrivial = False
-        res.transitions += 1
-        res.state("construct-refused")
-        res.outcomes.add("construct-refused:" + type(e).__name__)
+        _refused(res, e)
+        _spelling_refusal(res, comp, cell, eval_d2, e)
         return
     res.state("built")
     n = dim * dim
@@ -573,15 +778,25 @@ def eval_d2(res, cell):
         res.outcomes.add("forward:ok")
     res.state("forward")
     check_exact_data(res, comp, "BC=%s" % bc, prob, True)
-    if not close(_arr(prob.exactSolution), refs.dyadic_vec(dim * dim, k + 1), 1e-15):
+    if given and not close(_arr(prob.exactSolution), refs.dyadic_vec(dim * dim, k + 1), 1e-15):
         res.fail("C17|%s|exactSolution|phantom=%s" % (comp, cell["phantom"]), "exactSolution is not the (dim x dim) phantom "
                  "that was passed, row-major")
+    if not given:
+        # named / resized phantoms: the pixel values are not documented, the size is
+        xs = _arr(prob.exactSolution).ravel()
+        res.evaluations += 1
+        res.outcomes.add("phantom:%s" % phk)
+        if xs.size != n or not np.all(np.isfinite(xs)):
+            res.fail("C17|%s|exactSolution|phantom=%s" % (comp, phk), "exactSolution has %d finite pixels, dim*dim = %d"
+                     % (int(np.sum(np.isfinite(xs))), n))
+        if xs.size and float(np.ptp(xs)) == 0.0:
+            res.nontrivial = False
     std = cell["std"]
     if cell["noise"] == "gaussian":
         readings = lambda y: [np.full(y.size, std ** 2)]
     else:
         readings = lambda y: [(std * y) ** 2]
-    pz, var = check_noise(res, comp, facet, build, readings, "noise=" + cell["noise"])
+    pz, var = check_noise(res, comp, facet, build, readings, "noise=" + cell["noise"], light=bool(cell.get("light")))
     res.state("noise")
     _info_std(res, comp, pz, cell["noise"], std)
     pts = [np.zeros(n), refs.dyadic_vec(n, k), refs.dyadic_vec(n, k + 2, scale=0.5)] + [np.eye(n)[i] for i in (0, n // 2, n - 1)]
@@ -592,35 +807,70 @@ def eval_d2(res, cell):
 # ----------------------------------------------------------------------------------------
 # fields of the PDE / Abel problems
 # ----------------------------------------------------------------------------------------
+def _cov(x, y):
+    return np.exp(-abs(x - y) / 0.3)
+
+
+_CUSTOMKL = {"trunc_term": 3, "cov_func": _cov, "mean": 0.5, "std": 1.25}
+_MAPS = {"none": (None, None), "exp": (np.exp, np.log), "sq": (lambda x: x ** 2 + 0.5, None)}   # "sq": map without imap
+
+
 def _field(cell, grid):
-    """-> (constructor kwargs, reference matrix B (function values = map(B p)), elementwise map or None)."""
+    """-> (mk, readings, elementwise map or None, imap or None).
+
+    mk() gives fresh constructor kwargs (field_type / field_params); readings is the list of admissible documented
+    parameterisations (B, f0): function values = map(f0 + B p).  Field types: None, "KL", "KL_Full", "Step", "CustomKL"
+    with default and non-default field_params, and ready-made Geometry objects ("geom:...")."""
+    import cuqi
     f = cell["field"]
     N = len(grid)
-    mp = cell.get("map", "none")
-    base = f.split("+")[0]
-    if "+exp" in f:
-        mp = "exp"
-    kw = {}
+    grid = np.asarray(grid, float)
+    parts = f.split("+")
+    base = parts[0]
+    mp = parts[1] if len(parts) > 1 else cell.get("map", "none")
+    z = np.zeros(N)
     if base == "none":
-        B = np.eye(N)
+        mk, Bs = (lambda: {}), [np.eye(N)]
     elif base == "KL":
-        kw = {"field_type": "KL"}
-        B = tp.kl_matrix(N)
+        mk, Bs = (lambda: {"field_type": "KL"}), [tp.kl_matrix(N)]
     elif base == "KL-3":
-        kw = {"field_type": "KL", "field_params": {"num_modes": 3, "decay_rate": 1.5, "normalizer": 4.0}}
-        B = tp.kl_matrix(N, 3, 1.5, 4.0)
+        mk = lambda: {"field_type": "KL", "field_params": {"num_modes": 3, "decay_rate": 1.5, "normalizer": 4.0}}
+        Bs = [tp.kl_matrix(N, 3, 1.5, 4.0)]
     elif base == "Step":
-        kw = {"field_type": "Step", "field_params": {"n_steps": 2}}
-        B = tp.step_matrix(grid, 2)
+        mk, Bs = (lambda: {"field_type": "Step", "field_params": {"n_steps": 2}}), [tp.step_matrix(grid, 2)]
+    elif base == "Step-default":                 # n_steps left at the default of StepExpansion's signature (3)
+        mk, Bs = (lambda: {"field_type": "Step"}), [tp.step_matrix(grid, 3)]
+    elif base == "KLFull":                       # defaults: the signature says cor_len=0.2, nu=3.0, the docstring 1.0, 2.5
+        mk, Bs = (lambda: {"field_type": "KL_Full"}), [tp.kl_full_matrix(N, 1.0, 0.2, 3.0), tp.kl_full_matrix(N, 1.0, 1.0, 2.5)]
+    elif base == "KLFull-p":
+        mk = lambda: {"field_type": "KL_Full", "field_params": {"std": 1.5, "cor_len": 0.3, "nu": 2.0}}
+        Bs = [tp.kl_full_matrix(N, 1.5, 0.3, 2.0)]
+    elif base == "CustomKL-p":
+        # "a CustomKL geometry object will be created and set as a domain geometry": differential oracle - the
+        # parameterisation of an independently constructed CustomKL(grid, **field_params) (affine: offset + matrix)
+        mk = lambda: {"field_type": "CustomKL", "field_params": dict(_CUSTOMKL)}
+        g = cuqi.geometry.CustomKL(grid.copy(), **_CUSTOMKL)
+        m = int(g.par_dim)
+        f0 = _arr(g.par2fun(np.zeros(m))).ravel()
+        Bs = [(np.array([_arr(g.par2fun(np.eye(m)[i])).ravel() - f0 for i in range(m)]).T, f0)]
+    elif base == "geom:Step3":
+        mk, Bs = (lambda: {"field_type": cuqi.geometry.StepExpansion(grid.copy(), n_steps=3)}), [tp.step_matrix(grid, 3)]
+    elif base == "geom:C1D":
+        mk, Bs = (lambda: {"field_type": cuqi.geometry.Continuous1D(grid.copy())}), [np.eye(N)]
     else:
         raise ValueError(f)
-    return kw, B, (np.exp if mp == "exp" else None)
+    readings = [b if isinstance(b, tuple) else (b, z) for b in Bs]
+    fmap, imap = _MAPS[mp]
+    return mk, readings, fmap, imap
 
 
-def _obs_map(kind):
+def _obs_map(kind, endpoint=1.0):
     if kind == "none":
         return None
-    return lambda g: g[1::2]
+    if kind == "sub":                            # by index
+        return lambda g: g[1::2]
+    c = 0.45 * float(endpoint)                   # by location, the form of the docstring's example
+    return lambda g: g[np.where(g > c)]
 
 
 def _snr_readings(snr):
@@ -630,7 +880,35 @@ def _snr_readings(snr):
     return f
 
 
-def _finish_pde(res, comp, cell, prob, build, op_ref, B, mp, fpts, pts, facet, opfacet):
+def _etag(cell):
+    """Signature suffix for a non-default end-point (so that existing signatures stay as they are)."""
+    L = cell.get("L", 1.0)
+    return "" if float(L) == 1.0 else ",endpoint!=1"
+
+
+def _refused(res, e):
+    res.refused += 1
+    res.nontrivial = False
+    res.transitions += 1
+    res.state("construct-refused")
+    res.outcomes.add("construct-refused:" + type(e).__name__)
+
+
+def _spelling_refusal(res, comp, cell, evaluator, e):
+    """Option values are documented in the spelling of the docstring ('Mirror', 'scaledGaussian', ...): a problem that is
+    constructed with the lower-case spelling must not be refused with the documented one (differential)."""
+    if cell.get("spell") != "doc":
+        return
+    alt = {kk: v for kk, v in cell.items() if kk != "spell"}
+    r2 = CellResult(alt)
+    evaluator(r2, alt)
+    res.evaluations += 1
+    if not r2.refused:
+        res.fail("C17|%s|construct|documented-spelling" % comp, "constructor raised %r for the option spellings of the "
+                 "docstring, but accepts the same options in lower case" % (e,))
+
+
+def _finish_pde(res, comp, cell, prob, build, op_ref, freadings, mp, fpts, pts, facet, opfacet):
     """Common tail of Heat1D / Poisson1D / Abel1D.
 
     op_ref(f) -> list of admissible reference observations for the *function values* f.  The forward model is
@@ -658,6 +936,7 @@ def _finish_pde(res, comp, cell, prob, build, op_ref, B, mp, fpts, pts, facet, o
         res.outcomes.add("operator-reading:%d/%d" % (good[0], len(ref_list)))
         worst = max(worst, float(np.max(np.abs(got - ref_list[good[0]]))))
     if op_ok:
+        alive = list(range(len(freadings)))          # field readings consistent with every point so far
         for p in pts:
             res.transitions += 1
             res.evaluations += 1
@@ -667,15 +946,24 @@ def _finish_pde(res, comp, cell, prob, build, op_ref, B, mp, fpts, pts, facet, o
                 res.fail("C17|%s|forward|raises,%s" % (comp, facet), "forward raised %r on an admissible parameter" % (e,), p=p)
                 op_ok = False
                 break
-            fv = B @ np.asarray(p, float)
-            if mp is not None:
-                fv = mp(fv)
-            ref_list = op_ref(fv)
-            if not any(r.shape == got.shape and close(got, r, 1e-8) for r in ref_list):
+            still = []
+            for i in alive:
+                B, f0 = freadings[i]
+                fv = f0 + B @ np.asarray(p, float)
+                if mp is not None:
+                    fv = mp(fv)
+                if any(r.shape == got.shape and close(got, r, 1e-8) for r in op_ref(fv)):
+                    still.append(i)
+            if not still:
+                B, f0 = freadings[alive[0]]
+                fv = f0 + B @ np.asarray(p, float)
                 res.fail("C17|%s|forward|%s" % (comp, facet), "forward(parameters) differs from the reference operator applied "
-                         "to the documented field expansion", p=p, got=got, ref=ref_list[0])
+                         "to the documented field expansion", p=p, got=got, ref=op_ref(fv if mp is None else mp(fv))[0])
                 op_ok = False
                 break
+            alive = still
+        if op_ok:
+            res.outcomes.add("field-reading:%d/%d" % (alive[0], len(freadings)))
     if op_ok:
         res.outcomes.add("forward:ok")
     res.state("forward")
@@ -685,8 +973,14 @@ def _finish_pde(res, comp, cell, prob, build, op_ref, B, mp, fpts, pts, facet, o
     res.evaluations += 1
     if op_ok and not any(close(_arr(prob.exactData).ravel(), r, 1e-8) for r in op_ref(xs)):
         res.fail("C17|%s|exactData|reference" % comp, "exactData is not the reference operator applied to exactSolution")
+    if cell.get("xs"):
+        res.evaluations += 1
+        if not close(xs, _exact_given(xs.size, cell["cat"]), 1e-15):
+            res.fail("C17|%s|exactSolution|given" % comp, "exactSolution is not the array of function values that was passed")
+        else:
+            res.outcomes.add("exactSolution:given")
     res.outcomes.add("y#" + hashlib.sha1(np.round(_arr(prob.exactData), 9).tobytes()).hexdigest()[:10])
-    pz, var = check_noise(res, comp, facet, build, _snr_readings(cell["SNR"]), "noise=SNR")
+    pz, var = check_noise(res, comp, facet, build, _snr_readings(cell["SNR"]), "noise=SNR", light=bool(cell.get("light")))
     res.state("noise")
     s = getattr(pz, "infoString", None)
     if s is not None and str(cell["SNR"]) not in s:
@@ -695,6 +989,11 @@ def _finish_pde(res, comp, cell, prob, build, op_ref, B, mp, fpts, pts, facet, o
     res.state("components")
     if res.sample is None:
         res.sample = {"forward_max_abs_error": worst}
+
+
+def _exact_given(n, k):
+    """User-supplied exact solution (positive function values, so that it is admissible for every problem)."""
+    return 0.75 + np.abs(refs.dyadic_vec(n, k + 1, scale=0.125))
 
 
 def _fun_points(n, k, positive=False):
@@ -708,15 +1007,21 @@ def eval_heat(res, cell):
     import cuqi
     dim, k = cell["dim"], cell["cat"]
     comp = "Heat1D"
-    endpoint, max_time = 1.0, 0.1
+    endpoint, max_time = cell.get("L", 1.0), cell.get("T", 0.1)
     dx = endpoint / (dim + 1)
     grid = dx * (np.arange(dim) + 1.0)
-    kw, B, mp = _field(cell, grid)
-    if mp is not None:
-        kw.update({"map": np.exp, "imap": np.log})
-    om = _obs_map(cell["obs"])
+    mk, freadings, mp, imap = _field(cell, grid)
+    om = _obs_map(cell["obs"], endpoint)
+    tag = _etag(cell)
 
     def build():
+        kw = mk()
+        if mp is not None:
+            kw["map"] = mp
+            if imap is not None:
+                kw["imap"] = imap
+        if cell.get("xs"):
+            kw["exactSolution"] = _exact_given(dim, k)
         return cuqi.testproblem.Heat1D(dim=dim, endpoint=endpoint, max_time=max_time, SNR=cell["SNR"],
                                        observation_grid_map=om, **kw)
     try:
@@ -724,11 +1029,7 @@ def eval_heat(res, cell):
     except HarnessError:
         raise
     except Exception as e:
-        res.refused += 1
-        res.nontrivial = False
-        res.transitions += 1
-        res.state("construct-refused")
-        res.outcomes.add("construct-refused:" + type(e).__name__)
+        _refused(res, e)
         return
     res.state("built")
     pde = prob.model.pde
@@ -736,92 +1037,136 @@ def eval_heat(res, cell):
     if not (ts[0] == 0.0 and close(ts[-1], max_time, 1e-12) and np.all(np.diff(ts) > 0)):
         res.fail("C17|%s|time-grid|max_time" % comp, "time steps %r do not run from 0 to max_time" % ts[[0, -1]].tolist())
     if not close(_arr(pde.grid_sol), grid, 1e-12):
-        res.fail("C17|%s|grid|interior-nodes" % comp, "solution grid is not the dim interior nodes of (0, endpoint)")
+        res.fail("C17|%s|grid|interior-nodes%s" % (comp, tag), "solution grid is not the dim interior nodes of (0, endpoint)")
     sel = list(range(dim)) if om is None else _select(grid, om(grid))
+    res.outcomes.add("nobs=%d,nt=%d" % (len(sel), ts.size))
 
     def op_ref(u0):
         return [tp.heat_final(u0, dx, ts, pde.method)[sel]]
-    pts = _points(B.shape[1], k)
-    _finish_pde(res, comp, cell, prob, build, op_ref, B, mp, _fun_points(dim, k), pts,
-                "field=%s,map=%s" % (cell["field"], cell["map"]), "operator,obs=%s" % cell["obs"])
+    pts = _points(freadings[0][0].shape[1], k)
+    _finish_pde(res, comp, cell, prob, build, op_ref, freadings, mp, _fun_points(dim, k), pts,
+                "field=%s,map=%s" % (cell["field"], cell.get("map", "none")), "operator,obs=%s%s" % (cell["obs"], tag))
 
 
 def _source(xs):
     return 10 * np.exp(-((xs - 0.4) ** 2) / 0.05) + 1.0
 
 
+def _source_default(xs):                      # the default of the signature
+    return 10 * np.exp(-((xs - 0.5) ** 2) / 0.02)
+
+
+def _source_linear(xs):                       # depends strongly on where it is evaluated
+    return 1.0 + 2.0 * xs
+
+
+_SOURCES = {"custom": _source, "default": _source_default, "linear": _source_linear}
+
+
 def eval_poisson(res, cell):
     import cuqi
     dim, k = cell["dim"], cell["cat"]
     comp = "Poisson1D"
-    endpoint = 1.0
+    endpoint = cell.get("L", 1.0)
+    srck = cell.get("src", "custom")
+    srcf = _SOURCES[srck]
     N = dim - 1
-    grid_dom = np.linspace(0.0, endpoint, dim)
-    kw, B, mp = _field(cell, grid_dom)
-    if mp is not None:
-        kw.update({"map": np.exp, "imap": np.log})
-    om = _obs_map(cell["obs"])
+    grid_dom = np.linspace(0.0, float(endpoint), dim)
+    mk, freadings, mp, imap = _field(cell, grid_dom)
+    om = _obs_map(cell["obs"], endpoint)
+    tag = _etag(cell)
+    seen = []                                   # where the user's source function is evaluated
+
+    def recorder(xs):
+        seen.append(np.array(xs, dtype=float).ravel())
+        return srcf(xs)
 
     def build():
-        return cuqi.testproblem.Poisson1D(dim=dim, endpoint=endpoint, source=_source, SNR=cell["SNR"],
-                                          observation_grid_map=om, **kw)
+        kw = mk()
+        if mp is not None:
+            kw["map"] = mp
+            if imap is not None:
+                kw["imap"] = imap
+        if cell.get("xs"):
+            kw["exactSolution"] = _exact_given(dim, k)
+        if srck != "default":
+            kw["source"] = recorder
+        return cuqi.testproblem.Poisson1D(dim=dim, endpoint=endpoint, SNR=cell["SNR"], observation_grid_map=om, **kw)
     try:
         prob, _ = _scripted(build, None)
     except HarnessError:
         raise
     except Exception as e:
-        res.refused += 1
-        res.nontrivial = False
-        res.transitions += 1
-        res.state("construct-refused")
-        res.outcomes.add("construct-refused:" + type(e).__name__)
+        _refused(res, e)
         return
     res.state("built")
     pde = prob.model.pde
     gs = _arr(pde.grid_sol)
     if gs.size != N or not (np.all(gs > 0) and np.all(gs < endpoint) and np.all(np.diff(gs) > 0)):
-        res.fail("C17|%s|grid|interior-nodes" % comp, "solution grid is not dim-1 increasing interior nodes")
-    rhs = _source(gs)
+        res.fail("C17|%s|grid|interior-nodes%s" % (comp, tag), "solution grid is not dim-1 increasing interior nodes")
+    # nodes of the discretisation: where the source term is evaluated.  The docstring does not give them: every
+    # reasonable reading is accepted, but they must be the nodes the problem hands out as its solution grid (the
+    # observation map selects by these, the range geometry plots against these)
+    node_readings = [gs] + tp.poisson_node_readings(N, endpoint)
+    if srck != "default":
+        res.evaluations += 1
+        if not seen or seen[0].size != N:
+            res.fail("C17|%s|source|evaluated%s" % (comp, tag), "the source function was called %d times, first with %r nodes; "
+                     "expected one evaluation on the %d solution nodes" % (len(seen), seen[0].size if seen else None, N))
+            return
+        if not any(close(seen[0], r, 1e-12) for r in node_readings):
+            res.fail("C17|%s|source|nodes%s" % (comp, tag), "the source term is evaluated at %r, which is no reading of the "
+                     "%d interior nodes of (0, %r)" % (seen[0].tolist(), N, endpoint))
+            return
+        if gs.size == N and not close(seen[0], gs, 1e-12):
+            res.fail("C17|%s|grid|solution-nodes-vs-source-nodes%s" % (comp, tag), "the solution / observation grid handed out "
+                     "(%r) is not the set of nodes on which the equation is discretised (source evaluated at %r)" %
+                     (gs.tolist(), seen[0].tolist()))
+        node_readings = [seen[0]]
+    rhs_list = [srcf(x) for x in node_readings]
     sel = list(range(N)) if om is None else _select(gs, om(gs))
+    res.outcomes.add("nobs=%d" % len(sel))
 
     def op_ref(kappa):
-        return [tp.poisson_solution(kappa, rhs, endpoint / N)[sel], tp.poisson_solution(kappa, rhs, endpoint / (N + 1))[sel]]
-    n = B.shape[1]
+        return [tp.poisson_solution(kappa, rhs, h)[sel] for rhs in rhs_list for h in (endpoint / N, endpoint / (N + 1))]
+    n = freadings[0][0].shape[1]
     # non-linear in the conductivity: positive lattice (ones, ones + every basis direction, two generic points)
     pts = _fun_points(n, k, positive=True) if mp is None else _points(n, k)
-    _finish_pde(res, comp, cell, prob, build, op_ref, B, mp, _fun_points(dim, k, positive=True), pts,
-                "field=%s" % cell["field"], "operator,obs=%s" % cell["obs"])
+    _finish_pde(res, comp, cell, prob, build, op_ref, freadings, mp, _fun_points(dim, k, positive=True), pts,
+                "field=%s" % cell["field"], "operator,obs=%s%s" % (cell["obs"], tag))
 
 
 def eval_abel(res, cell):
     import cuqi
     dim, k = cell["dim"], cell["cat"]
     comp = "Abel1D"
-    endpoint = 1.0
-    grid = np.linspace(0.0, endpoint, dim)
-    kw, B, mp = _field(cell, grid)
-    if mp is not None:
-        kw.update({"KL_map": np.exp, "KL_imap": np.log})
+    endpoint = cell.get("L", 1.0)
+    grid = np.linspace(0.0, float(endpoint), dim)
+    mk, freadings, mp, imap = _field(cell, grid)
+    tag = _etag(cell)
+
     def build():
+        kw = mk()
+        if mp is not None:
+            kw["KL_map"] = mp
+            if imap is not None:
+                kw["KL_imap"] = imap
         return cuqi.testproblem.Abel1D(dim=dim, endpoint=endpoint, SNR=cell["SNR"], **kw)
     try:
         prob, _ = _scripted(build, None)
     except HarnessError:
         raise
     except Exception as e:
-        res.refused += 1
-        res.nontrivial = False
-        res.transitions += 1
-        res.state("construct-refused")
-        res.outcomes.add("construct-refused:" + type(e).__name__)
+        _refused(res, e)
         return
     res.state("built")
     A = tp.abel_matrix(dim, endpoint)
 
     def op_ref(f):
         return [A @ np.asarray(f, float)]
-    pts = _points(B.shape[1], k)
-    _finish_pde(res, comp, cell, prob, build, op_ref, B, mp, _fun_points(dim, k), pts, "field=%s" % cell["field"], "operator")
+    pts = _points(freadings[0][0].shape[1], k)
+    _finish_pde(res, comp, cell, prob, build, op_ref, freadings, mp, _fun_points(dim, k), pts, "field=%s" % cell["field"],
+                "operator" + tag)
 
 
 def eval_wang(res, cell):
